@@ -1993,7 +1993,9 @@ class FDSelectCompiler(object):
 class VarStoreCompiler(object):
     def __init__(self, varStoreData, parent):
         self.parent = parent
-        if not varStoreData.data:
+        # always recompile: the VarStore may have been modified (e.g. instanced)
+        # since a previous compile cached its data
+        if varStoreData.otVarStore is not None or not varStoreData.data:
             varStoreData.compile()
         varStoreDataLen = min(0xFFFF, len(varStoreData.data))
         data = [packCard16(varStoreDataLen), varStoreData.data]
